@@ -106,8 +106,8 @@ def check_normalize(case):
         auto=bool(autos),
         prev=prev is not None,
         zero_chunk=prev is not None and A.has_zero_chunk(prev),
-        # an explicitly chunked (non-auto) empty dimension next to an 'auto' one
-        empty_explicit_dim=bool(autos) and any(shape[i] == 0 for i in range(nd) if i not in autos),
+        # a zero-length dimension together with an 'auto' dimension
+        empty_dim=bool(autos) and 0 in shape,
     )
     with impl("normalize_chunks", **sig), time_limit(10, "normalize_chunks", **sig):
         got = normalize_chunks(live_spec(spec, nd), shape, limit=limit, dtype=dtype, previous_chunks=prev_t)
@@ -218,11 +218,14 @@ NDTYPES = ["u1", "i2", "f4", "f8", "c16", "M8[ns]"]
 def normalize_case(draw):
     nd = draw(st.sampled_from([0, 1, 1, 2, 2, 2, 3, 3, 4]))
     big = draw(st.booleans())
-    shape = [draw(st.sampled_from([0, 1, 2, 3, 5, 7, 8, 12, 17, 30, 40] if big else [0, 1, 2, 3, 4, 5, 6])) for _ in range(nd)]
+    sides = [1, 2, 3, 5, 7, 8, 12, 17, 30, 40] if big else [1, 2, 3, 4, 5, 6]
+    if draw(st.integers(0, 4)) == 0:
+        sides = [0] + sides
+    shape = [draw(st.sampled_from(sides)) for _ in range(nd)]
     use_bytes = draw(st.integers(0, 3)) == 0
     bstr = draw(st.sampled_from(BYTE_STRINGS))
     auto_tok = bstr if use_bytes else "auto"
-    want_auto = draw(st.integers(0, 4)) > 0
+    want_auto = draw(st.integers(0, 7)) > 0
 
     def elem(i):
         n = shape[i]
@@ -256,7 +259,7 @@ def normalize_case(draw):
     if has_auto and not (use_bytes and any(is_auto(e) and e != "auto" for e in elems)):
         limit = draw(st.sampled_from(LIMITS + [None, "64 B", "1 KiB"]))
     prev = None
-    if has_auto and draw(st.booleans()):
+    if has_auto and draw(st.integers(0, 2)) > 0:
         prev = draw(C.shape_chunks(shape, zero_p=0.1))
     return {"shape": shape, "spec": spec, "limit": limit, "dtype": draw(st.sampled_from(NDTYPES)), "prev": prev}
 
